@@ -1,5 +1,6 @@
 /- driver for the container model (C20 correspondence) -/
 import SmrtVerif.Model.Container
+import SmrtVerif.Model.Fourier
 import SmrtVerif.Driver.Proto
 
 namespace Smrt.Driver.C20
@@ -148,6 +149,13 @@ def handle : List String → String
       let L := rng ns.length
       let sh (f : Nat → Nat) := " ".intercalate (L.map fun l => toString (f l))
       s!"{sh (jl npol ns)} | {sh (ilTop npol ns)} | {sh (ilBottom npol ns)} | {nband npol ns} {nboundary npol ns}"
+  | "fourier" :: np :: Ns :: mm :: nss :: nis :: r =>
+      let (npol, N, mmax, ns, ni) := (nat np, nat Ns, nat mm, nat nss, nat nis)
+      let K := N / 2 + 1
+      let (v, _) := takeF (npol * npol * K * ns * ni) r
+      let smp (p q i j k : Nat) : F := v.getD ((((p * npol + q) * K + k) * ns + i) * ni + j) 0
+      " ".intercalate ((rng npol).flatMap fun p => (rng npol).flatMap fun q => (rng (mmax + 1)).flatMap fun m =>
+        (rng ns).flatMap fun i => (rng ni).map fun j => showF (ftEvenCoef npol N p q m (smp p q i j)))
   | "layout" :: np :: r =>
       let npol := nat np
       let ns := r.map nat
